@@ -264,6 +264,25 @@ class Run:
         return 1 if self.violations else 0
 
 
+def coqchk(hand_files, timeout=1500):
+    """Independent re-check of the compiled hand-written files of a property (thorough tier): returns
+    (ok, summary dict with axioms / type-in-type / unsafe fixpoints / assumed positivity, raw tail)."""
+    mods = ["UFLV." + f[:-2].replace("/", ".") for f in hand_files]
+    if not mods:
+        return True, {}, ""
+    rc, out, err = sh(["timeout", str(timeout), "coqchk", "-silent", "-o", "-Q", COQ, "UFLV"] + mods,
+                      timeout=timeout + 30, cwd=COQ)
+    txt = out + err
+    summ = {}
+    for key, pat in (("axioms", r"\* Axioms:(.*?)\n\s*\n\* Constants"),
+                     ("type_in_type", r"relying on type-in-type:(.*?)\n\s*\n\*"),
+                     ("unsafe_fixpoints", r"relying on unsafe \(co\)fixpoints:(.*?)\n\s*\n\*"),
+                     ("assumed_positivity", r"positivity is assumed:(.*?)(?:\n\s*\n|$)")):
+        m = re.search(pat, txt, flags=re.S)
+        summ[key] = re.sub(r"\s+", " ", m.group(1)).strip() if m else "?"
+    return rc == 0, summ, txt[-600:]
+
+
 def load_known_findings(pid):
     """Open known findings of a property: known_findings.json (merged, committed) and known/<pid>.json."""
     out, seen = [], set()
